@@ -25,11 +25,11 @@ ASSUMPTIONS = ['check-string menu replaces the random expression generator',
 ROLES = ('a', 'b', 'c', 'd')
 MENU = {
     'quick': ['role:a', 'role:b', 'role:a or role:c', 'role:b and role:d',
-              'not role:d', '!'],
+              'not role:d', '!', ''],
     'thorough': ['role:a', 'role:b', 'role:c', 'role:a or role:c',
                  'role:b and role:d', 'not role:d', '!', '@',
                  'role:a and not role:b', '(role:a or role:b) and role:c',
-                 'role:d or role:a and role:b', 'not (role:a or role:d)'],
+                 'role:d or role:a and role:b', 'not (role:a or role:d)', ''],
 }
 OVR = {'quick': ['role:c', 'role:d and role:a', '@'],
        'thorough': ['role:c', 'role:d and role:a', '@', '!',
